@@ -34,14 +34,14 @@ GuardData(st, e) ==
   /\ e.stored <= st.sup.block_size /\ e.usize <= st.sup.block_size
   /\ (e.sparse => e.stored = 0)
   /\ (~e.sparse => (e.in_data_area /\ e.expands_ok))
-  /\ (e.compressed => e.stored < e.usize)
+  /\ (e.compressed => e.stored <= e.usize)
   /\ ((~e.compressed /\ ~e.sparse) => e.stored = e.usize)
 GuardFrag(st, e) ==
   /\ e.stored >= 1 /\ e.stored <= st.sup.block_size /\ e.in_data_area
   /\ e.usize >= 1 /\ e.usize <= st.sup.block_size
-  /\ (e.compressed => e.stored < e.usize) /\ (~e.compressed => e.stored = e.usize)
+  /\ (e.compressed => e.stored <= e.usize) /\ (~e.compressed => e.stored = e.usize)
 GuardMeta(e) == /\ e.stored <= 8192 /\ e.usize <= 8192 /\ e.usize >= 1
-                /\ (e.compressed => e.stored < e.usize) /\ (~e.compressed => e.stored = e.usize)
+                /\ (e.compressed => e.stored <= e.usize) /\ (~e.compressed => e.stored = e.usize)
 GuardInode(st, e) ==
   /\ e.num \in 1..st.sup.inodes /\ e.num \notin st.nums
   /\ e.nlink >= 1
